@@ -113,7 +113,7 @@ def case(ctx, rng, idx, state):
 if __name__ == "__main__":
     harness.main(
         PROP, "exploration", case, setup_fn=setup,
-        tiers=dict(quick=dict(cases=16, shards=8, time=200), thorough=dict(cases=400, shards=16, time=1200)),
+        tiers=dict(quick=dict(cases=16, shards=8, time=900), thorough=dict(cases=400, shards=16, time=3000)),
         rule="random Hermitian models (2-4 WFs, Ham / +AA / +AA+SS, 3D or 2D), grids N_i in {2,3,4,6(,8)} incl. anisotropic; all (or 6-12 sampled incl. "
              "the two extreme) factorisations NKdiv x NKFFT, both FFT libraries, 2-4 calculators from a pool of 14 static/dynamic ones (tetra randomly on) "
              "plus a grid tabulator (energy, Berry curvature, velocity); non-trivial = at least 3 runs compared; distinct by (model size, N, calculators)",
